@@ -224,6 +224,45 @@ def doc_level(ctx: Ctx, cs):
         j = next((i for i, (a_, b_) in enumerate(zip(gl, ya.split('\n'))) if a_ != b_), 0)
         ctx.violation('agnostic-selection-spelling', f'akern with include = all categories except NOTE/NOTE_REST/CORE '
                       f'{"raised " + repr(errl) if errl is not None else "differs from the unfiltered akern export at line " + str(j + 1) + ": " + repr(gl[j] if j < len(gl) else None) + " vs " + repr(ya.split(chr(10))[j])}', case)
+    # the relation under selections that take sub-parts out of notes but never a whole cell (so both exports keep the grid of the
+    # unfiltered ones): akern(selection) is kern(selection) with the same letters replaced as in the unfiltered pair
+    if greal is not None and 'separator_in_text_cell' not in doc.tags:
+        for sel in (['ALTERATION'], ['DECORATION'], ['ALTERATION', 'DECORATION'], ['DURATION']):
+            ctx.ev()
+            ctx.mon('filtered_agnostic_pairs')
+            kw_ = {'exclude': [TC[c_] for c_ in sel]}
+            fk, e1 = kpx.dumps(d, **kw_)
+            fa, e2 = kpx.dumps(d, encoding=kpx.Enc.agnosticKern, **kw_)
+            c3 = dict(case, exclude=sel)
+            if e1 is not None or e2 is not None:
+                if e2 is not None and e1 is None:
+                    ctx.violation('agnostic-export-raises', f'akern with exclude={sel} raised {type(e2).__name__}: {e2} (kern does not)', c3)
+                continue
+            gfk, gfa = kpx.grid(fk), kpx.grid(fa)
+            if [len(r_) for r_ in gfk] != [len(r_) for r_ in greal] or [len(r_) for r_ in gfa] != [len(r_) for r_ in ga]:
+                ctx.mon('filtered_agnostic_pairs_with_another_grid (not compared)')
+                continue
+            bad = None
+            for r_, (rk, ra, rfk, rfa) in enumerate(zip(greal, ga, gfk, gfa)):
+                for ck, ca, cfk, cfa in zip(rk, ra, rfk, rfa):
+                    nk, na, nfk, nfa = ck.split(' '), ca.split(' '), cfk.split(' '), cfa.split(' ')
+                    if not (len(nk) == len(na) == len(nfk) == len(nfa)):
+                        if cfk != cfa and not cfk.startswith('**'):
+                            bad = (r_, cfk, cfa, 'cells do not have the same number of notes')
+                        continue
+                    for a_, b_, c_, d_ in zip(nk, na, nfk, nfa):
+                        mk, ma, mfk = RE_KNOTE.match(a_), RE_KNOTE.match(b_), RE_KNOTE.match(c_)
+                        if a_ == b_ or not (mk and ma and mfk) or mfk.group(2) != mk.group(2):
+                            exp_ = c_ if a_ == b_ else None
+                        else:
+                            exp_ = mfk.group(1) + ma.group(2) + mfk.group(4)
+                        if exp_ is not None and d_ != exp_ and not cfk.startswith('**'):
+                            bad = (r_, c_, d_, f'expected {exp_!r}')
+                if bad:
+                    break
+            if bad:
+                ctx.violation('agnostic-note-filtered', f'exclude={sel}: line {bad[0] + 1}: kern {bad[1]!r} is {bad[2]!r} in akern ({bad[3]}): '
+                              f'only the pitch letters change, as in the unfiltered pair', c3)
     transposed_level(ctx, kp, doc, x, ag, cx, case, cs)
     if rich and 'clef_change' in doc.tags:
         ctx.nontriv(x)
